@@ -137,9 +137,16 @@ func checkTagCall(c *Ctx, r *Run, rule string, fn *ssa.Function, call *ssa.Call,
 			}
 		}
 		if rs.only != nil {
+			hasRecvField := false
 			for _, l := range ls {
-				// method pseudo-fields ("x.M()") summarise calls whose operands are listed anyway
-				allowed := strings.HasSuffix(l, "()")
+				if strings.HasPrefix(l, "recv.") {
+					hasRecvField = true
+				}
+			}
+			for _, l := range ls {
+				// method pseudo-fields ("x.M()") summarise calls whose operands are listed anyway;
+				// the bare receiver accompanies every load of one of its fields
+				allowed := strings.HasSuffix(l, "()") || (l == "recv" && hasRecvField)
 				for _, o := range rs.only {
 					if l == o || strings.HasPrefix(l, o+".") || strings.HasPrefix(l, o+"[") {
 						allowed = true
